@@ -24,7 +24,7 @@ PROPS = {
         level='model_checking', verus_units=['merge', 'core', 'utils'],
         kani=True,
         kani_select=dict(quick=r'^k_task_map_fil_col_n|^k_glue_map_fil_col_n2c1|^k_api_par2_(empty|fil|fmap|map_fil)_collect_vec',
-                         thorough=r'^k_task_\w+_col_n|^k_glue_\w+_col_n|^k_api_par2_\w+_collect(_vec)?_n'),
+                         thorough=r'^k_task_\w+_col_n|^k_taskkeys_|^k_glue_\w+_col_n|^k_api_par2_\w+_collect(_vec)?_n'),
         trusted_base=[T1, T2, T3, T4, T5, ASPEC, A64, ARITH, RSCHED, STUBS, MODEL],
         assumptions=[TASK_BOUND],
         explanation='Verus (unbounded, real text): heap_sort_into_vec/_pinned_vec append exactly the key-sorted enumeration of all (key,value) slots after the untouched prefix (every slot read once), for any number and length of worker vectors; Runner::run_map returns one result per worker in spawn order for every has_more() history. Kani (bounded): every collect kernel task returns exactly the survivors of the blocks delivered to it keyed by source position in strictly increasing key order (= the merge precondition, asserted by the merge contract stub); kernel glue and public API chains equal the std::iter chain. ' + MC_TEXT,
@@ -86,7 +86,7 @@ PROPS = {
     'C08': dict(
         level='proof', verus_units=['core'],
         kani=True,
-        kani_select=dict(quick=r'^k_pair_|^k_api_seq_(empty_collect_vec|map_fil_collect_vec|map_fil_count|map_fil_reduce|map_fil_find|fil_first|map_any|fil_for_each|empty_count)',
+        kani_select=dict(quick=r'^k_pair_|^k_api_seq_(empty_collect_vec|fil_collect_vec|map_fil_count|map_fil_reduce|map_fil_find|fil_first|map_any|fil_for_each|empty_count)',
                          thorough=r'^k_pair_|^k_api_seq_'),
         trusted_base=[T1, T5, T7, AHW, A64, ARITH, STUBS, MODEL],
         assumptions=['workers of one run are the only threads executing closures during it and are joined before the run returns (T5)', TASK_BOUND + ' (only for the Max(1) clause: data bounded, parameters fully symbolic)'],
